@@ -26,8 +26,8 @@ func runMoreSuites(suite string, r *rand.Rand, res *Result, thorough bool) bool 
 		runCases(s, dbGen(r, scale(40, 600), scale(120, 250), true), res)
 		runCases(s, dbGenManyTables(r, scale(4, 60)), res)
 	case "closerace":
-		s := Suite{Name: "closerace", DriverSuite: "disk", Exec: closeraceExec}
-		res.Rule = "1-6 writer goroutines committing unique keys as fast as they can with rotation on (almost) every commit, 0-4 reader goroutines, a flusher slowed down by the hook, ImmutableBuffer in {0,1,2,10}, and a Close fired after 0-11 ms while they run; every call runs under a watchdog (15 s, goroutine stacks as replay); writers must get nil or ErrDBClosed; after Close the directory is reopened and every acknowledged commit read back; non-trivial = every case"
+		s := Suite{Name: "closerace", DriverSuite: "sched", Exec: closeraceExec}
+		res.Rule = "1-6 writer goroutines committing unique keys as fast as they can with rotation on (almost) every commit, 0-4 reader goroutines, a flusher slowed down by the hook, ImmutableBuffer in {0,1,2,10}, and a Close fired after 0-11 ms while they run; every call runs under a watchdog (15 s, goroutine stacks as replay); writers must get nil or ErrDBClosed; the lock-region events (commit timestamp assigned, batch applied with/without rotation, commit done, Close holds writeLock, flusher drained, Close done) and the flusher's flush.done are followed in the Lean blocking model Sched (subset construction over its hidden steps): the observed execution must be one of the model's; after Close the directory is reopened and every acknowledged commit read back; non-trivial = every case"
 		runCases(s, closeraceGen(r, scale(40, 600)), res)
 	case "crash":
 		s := Suite{Name: "crash", DriverSuite: "disk", Exec: crashExec}
@@ -60,7 +60,7 @@ func moreSuiteByName(name string) (Suite, bool) {
 	case "crash":
 		return Suite{Name: "crash", DriverSuite: "disk", Exec: crashExec}, true
 	case "closerace":
-		return Suite{Name: "closerace", DriverSuite: "disk", Exec: closeraceExec}, true
+		return Suite{Name: "closerace", DriverSuite: "sched", Exec: closeraceExec}, true
 	}
 	return Suite{}, false
 }
